@@ -372,13 +372,14 @@ func corpus(emit func(Spec)) {
 		s2 := b.add(b.child(s, "S10", childOpt{dt: 20}))
 		b.step(s2, b.now+1, false)
 		m11 := b.add(b.child(chain[9], "M11", childOpt{dt: 25}))
-		b.step(m11, b.now+1, false)
+		b.step(m11, b.sp.Nodes[m11].Time+5, false)
 		emit(b.sp)
 	}
 	// FINDING candidates (each is the witness of a *_refuted theorem; see Refuted/C10_*.v)
 	emit(witnessSameRoot())
 	emit(witnessPrunedFork())
 	emit(witnessExpiredReorg())
+	emit(witnessRevisionWedge())
 	emit(witnessRevisionPrune())
 	emit(witnessRevisionStale())
 }
@@ -419,21 +420,43 @@ func witnessPrunedFork() Spec {
 	return b.sp
 }
 
-// eth-reorg-to-expired-branch: G; A1..A6 with the clock; then a sibling S of A2 whose timestamp is older than the
-// trusting period: accepted, becomes head, and the client is expired (every later update refused).
+// eth-reorg-to-expired-branch: G; A1..A6 (timestamps one second apart); the clock advances by the trusting period;
+// a sibling S3 of A3 (parent A2, still stored) is a valid child of a stored header, is accepted, becomes head -- and
+// its timestamp is older than the trusting period: the client is Expired, every later update is refused.
 func witnessExpiredReorg() Spec {
 	b := newBuilder("witness:eth-reorg-to-expired-branch", "keeper", 4, 1000, genesisOpt{num: 500})
 	p := 0
 	var chain []int
 	for i := 0; i < 6; i++ {
-		p = b.add(b.child(p, fmt.Sprintf("A%d", i+1), childOpt{dt: 300}))
+		p = b.add(b.child(p, fmt.Sprintf("A%d", i+1), childOpt{dt: 1}))
 		chain = append(chain, p)
+		b.step(p, t0+10, false)
+	}
+	s := b.add(b.child(chain[1], "S3", childOpt{dt: 1}))
+	b.step(s, t0+1004, false)
+	a7 := b.add(b.child(chain[5], "A7", childOpt{dt: 1000}))
+	b.step(a7, t0+1005, false)
+	return b.sp
+}
+
+// eth-revision-prune-wedge: a client whose heights carry revision number 1; the stored header A1 is re-submitted with
+// revision number 0.  The extra consensus state (0, h) sorts first, expires and is pruned together with A1's header
+// and root-main entry; when the genuine state (1, h) expires its root-main entry is gone and the prune step fails:
+// every later update is refused.
+func witnessRevisionWedge() Spec {
+	b := newBuilder("witness:eth-revision-prune-wedge", "keeper", 4, 100, genesisOpt{num: 500, rev: 1})
+	a1 := b.add(b.child(0, "A1", childOpt{dt: 20}))
+	b.step(a1, b.sp.Nodes[a1].Time+5, false)
+	n := b.sp.Nodes[a1]
+	n.Rev = 0
+	n.Label = "A1@rev0"
+	a1r := b.add(n)
+	b.step(a1r, b.now+1, false)
+	p := a1
+	for i := 0; i < 8; i++ {
+		p = b.add(b.child(p, fmt.Sprintf("A%d", i+2), childOpt{dt: 30}))
 		b.step(p, b.sp.Nodes[p].Time+5, false)
 	}
-	s := b.add(b.child(chain[0], "S2", childOpt{dt: 1}))
-	b.step(s, b.now+1, false)
-	a7 := b.add(b.child(chain[5], "A7", childOpt{dt: 10}))
-	b.step(a7, b.now+1, false)
 	return b.sp
 }
 
@@ -680,6 +703,9 @@ func allTrees(k int, emit func(Spec)) {
 // mutation sweeps: every single-field mutation of a valid child, at the head and on a side branch
 // ---------------------------------------------------------------------------------------------
 
+// mutations of a non-Rinkeby header that are refused before the (slow) seal check
+var cheapMutations = []string{"diff+1", "diff-empty", "extra33", "bloom257", "parent-flip", "num+1", "time=future", "gaslimit=2^63", "gasused>limit", "diff=2^64"}
+
 func mutationSweep(r *hlib.Rand, chainID uint64, variant int) Spec {
 	g := genesisOpt{num: genesisNums[r.Intn(len(genesisNums))]}
 	switch variant % 4 {
@@ -704,10 +730,16 @@ func mutationSweep(r *hlib.Rand, chainID uint64, variant int) Spec {
 		}
 		parentsOf = []int{a2, b1, a1}
 	}
+	muts := mutations
+	if chainID != 4 && variant == 0 {
+		muts = cheapMutations
+	}
 	for _, p := range parentsOf {
-		ok := b.add(b.child(p, "valid", o()))
-		b.step(ok, b.now+25, true)
-		for _, m := range mutations {
+		if chainID == 4 {
+			ok := b.add(b.child(p, "valid", o()))
+			b.step(ok, b.now+25, true)
+		}
+		for _, m := range muts {
 			c := b.mutate(b.child(p, "M", o()), m, b.now+25)
 			b.step(b.add(c), b.now+25, true)
 		}
@@ -719,7 +751,6 @@ func mutationSweep(r *hlib.Rand, chainID uint64, variant int) Spec {
 // checked by the real ethash (tabulated for every node: slow, so the case is small).
 func ethashCase(r *hlib.Rand) Spec {
 	b := newBuilder("ethash-fake-seal", "keeper", 1, 999999999, genesisOpt{num: uint64(1 + r.Intn(20000))})
-	b.sp.Ethash = true
 	c1 := b.child(0, "fake-seal", childOpt{dt: uint64(1 + r.Intn(20))})
 	b.step(b.add(c1), b.now+25, false)
 	c2 := b.mutate(b.child(0, "E", childOpt{dt: 5}), "diff+1", b.now)
@@ -740,7 +771,7 @@ func fixtureCase(path string) (Spec, bool) {
 	if err := json.Unmarshal(bz, &hdrs); err != nil || len(hdrs) < 3 {
 		return Spec{}, false
 	}
-	sp := Spec{Mode: "keeper", ChainID: 1, Trust: 99999999, Tag: "fixture-mainnet", Ethash: true}
+	sp := Spec{Mode: "keeper", ChainID: 1, Trust: 99999999, Tag: "fixture-mainnet"}
 	for i, eh := range hdrs {
 		if i >= 4 {
 			break
